@@ -80,6 +80,21 @@ const INJ_VARIANTS: [&str; 3] = [
     "((code) @injection.content (#set! injection.language \"arith\") (#set! injection.combined))",
 ];
 
+fn same_events(a: &[HighlightEvent], b: &[HighlightEvent]) -> bool {
+    a.len() == b.len() && a.iter().zip(b.iter()).all(|(x, y)| match (x, y) {
+        (HighlightEvent::HighlightStart(h1), HighlightEvent::HighlightStart(h2)) => h1.0 == h2.0,
+        (HighlightEvent::HighlightEnd, HighlightEvent::HighlightEnd) => true,
+        (HighlightEvent::Source { start: s1, end: e1 }, HighlightEvent::Source { start: s2, end: e2 }) => s1 == s2 && e1 == e2,
+        _ => false,
+    })
+}
+
+fn render_events(ev: &[HighlightEvent], names: &[&'static str]) -> String {
+    let mut line = String::new();
+    for e in ev.iter().take(60) { match *e { HighlightEvent::HighlightStart(h) => line.push_str(&format!("<{}>", names.get(h.0).copied().unwrap_or("?"))), HighlightEvent::HighlightEnd => line.push_str("</>"), HighlightEvent::Source { start, end } => line.push_str(&format!("[{}..{}]", start, end)) } }
+    line
+}
+
 struct Cfg { name: &'static str, main: HighlightConfiguration, injected: Option<HighlightConfiguration>, names: Vec<&'static str> }
 
 fn check_source(cfg: &Cfg, hl: &mut Highlighter, parent_lang: &tree_sitter::Language, variant: usize, src: &[u8], res: &mut ShardResult) {
@@ -93,6 +108,13 @@ fn check_source(cfg: &Cfg, hl: &mut Highlighter, parent_lang: &tree_sitter::Lang
         for e in it { match e { Ok(e) => v.push(e), Err(e) => { fail(res, "highlight-error", format!("{:?}", e)); return; } } if v.len() > 100_000 { fail(res, "highlight-does-not-terminate", "more than 100000 events".into()); return; } }
         v
     };
+    // highlighter reuse across documents: a fresh Highlighter must produce the same event stream as the reused one
+    {
+        let mut fresh = Highlighter::new();
+        let injected = cfg.injected.as_ref();
+        let fresh_events: Vec<HighlightEvent> = match fresh.highlight(&cfg.main, src, None, None, move |name| if name == "arith" { injected } else { None }) { Ok(it) => it.flatten().collect(), Err(_) => vec![] };
+        if !same_events(&fresh_events, &events) { fail(res, "reused-highlighter-differs-from-fresh", format!("reused: {} | fresh: {}", render_events(&events, &cfg.names), render_events(&fresh_events, &cfg.names))); }
+    }
     // our own view of the parent tree
     let mut parser = Parser::new();
     parser.set_language(parent_lang).unwrap();
@@ -232,6 +254,11 @@ fn check_nested(n: &Nested, hl: &mut Highlighter, tmpl_lang: &tree_sitter::Langu
         for e in it { match e { Ok(e) => v.push(e), Err(e) => { fail(res, "highlight-error", format!("{:?}", e)); return; } } if v.len() > 100_000 { fail(res, "highlight-does-not-terminate", "more than 100000 events".into()); return; } }
         v
     };
+    {
+        let mut fresh = Highlighter::new();
+        let fresh_events: Vec<HighlightEvent> = match fresh.highlight(&n.main, src, None, None, move |name| match name { "arith" => Some(a), "stmts" => Some(st), _ => None }) { Ok(it) => it.flatten().collect(), Err(_) => vec![] };
+        if !same_events(&fresh_events, &events) { fail(res, "reused-highlighter-differs-from-fresh", format!("reused: {} | fresh: {}", render_events(&events, &n.names), render_events(&fresh_events, &n.names))); }
+    }
     let mut parser = Parser::new();
     parser.set_language(tmpl_lang).unwrap();
     let xt = XTree::build(&parser.parse(src, None).unwrap());
